@@ -24,7 +24,7 @@ def run(prog, report, tier):
     stale.check_drivers(prog, report,
                         only={'Mesh.dorfler_refine_isotropic',
                               'Mesh.dorfler_refine_anisotropic'})
-    report.floor('R-mark', 14)
+    report.floor('R-mark', 16)
     report.floor('R-stale', 4)
     report.assumptions.append('mesh invariants J1-J7 hold on entry (premises '
                               'decided under C02/C10)')
